@@ -137,6 +137,7 @@ func PrognoseTime(ZEIT int, g *GlobalVarsMain, herPath *HFilePath, driConfig *Co
 		err := WetterK(VWDAT, year, g, &s, herPath, driConfig)
 		if err != nil {
 			if g.DEBUGCHANNEL != nil {
+				verifYield("send.debug", g.LOGID, "")
 				g.DEBUGCHANNEL <- fmt.Sprintln(err)
 			} else {
 				fmt.Println(err)
